@@ -29,7 +29,7 @@ Definition lin_interp (min_in max_in cur min_out max_out : Z) : result Z :=
 
 (** ------------------------------------------------------------------ lock options *)
 (** (lock_epochs, penalty_start_percentage), kept sorted by lock_epochs *)
-Definition opt := (Z * Z)%type.
+Notation opt := (Z * Z)%type (only parsing).
 
 Definition start_of_month (e : Z) : Z := e - e mod EPOCHS_PER_MONTH.
 
@@ -268,21 +268,18 @@ Definition ep_lock_virtual (s : lst) (c amt le dest : Z) : result (lst * outs) :
   let s3 := s_credit s2 dest unlock amt in
   Ok (set_g s3 (g_add_emit (g_add_lmint (l_g s3) amt) amt), [unlock; amt]).
 
-(** unlockTokens: any number of LOCKED payments, each must have reached its unlock epoch *)
+(** unlockTokens: any number of LOCKED payments, each must have reached its unlock epoch.
+    The VM moves all payments before the endpoint body runs and the endpoint mints the total after
+    its loop; a failure anywhere reverts everything, and the checks on one payment do not depend on
+    another payment's processing (debits concern LOCKED nonces, the credit the base asset), so
+    handling payment by payment gives the same result and the same final state. *)
 Definition unlock_one (s : lst) (c : Z) (p : Z * Z) : result lst :=
   let '(e, amt) := p in
+  check (0 <? e) && (0 <? amt) else EGuard;
+  do s0 <- s_debit s c e amt;                                             (* the payment; nft_burn *)
   check (e <=? l_now s) else EGuard;                                      (* "Cannot unlock yet" *)
-  check (0 <? amt) else EGuard;
-  do s1 <- tl_sub s c amt;                                                (* refund_after_token_unlock *)
+  do s1 <- tl_sub s0 c amt;                                               (* refund_after_token_unlock *)
   Ok (set_g (s_credit s1 c 0 amt) (g_add_bmint (g_add_lburn (l_g s1) amt) amt)).
-
-Fixpoint pay_all (s : lst) (c : Z) (ps : list (Z * Z)) : result lst :=
-  match ps with
-  | [] => Ok s
-  | (e, amt) :: t =>
-      check (0 <? e) && (0 <? amt) else EGuard;
-      do s1 <- s_debit s c e amt; pay_all s1 c t
-  end.
 
 Fixpoint unlock_all (s : lst) (c : Z) (ps : list (Z * Z)) : result lst :=
   match ps with
@@ -290,13 +287,14 @@ Fixpoint unlock_all (s : lst) (c : Z) (ps : list (Z * Z)) : result lst :=
   | p :: t => do s1 <- unlock_one s c p; unlock_all s1 c t
   end.
 
+Definition pay_total (ps : list (Z * Z)) : Z := fold_right (fun p acc => snd p + acc) 0 ps.
+
 Definition ep_unlock (s : lst) (c : Z) (ps : list (Z * Z)) : result (lst * outs) :=
   check is_user c else EGuard;
   check negb (paused s) else EState;
   check negb (match ps with [] => true | _ => false end) else EGuard;
-  do s1 <- pay_all s c ps;
-  do s2 <- unlock_all s1 c ps;
-  Ok (s2, [fold_right (fun p acc => snd p + acc) 0 ps]).
+  do s1 <- unlock_all s c ps;
+  Ok (s1, [pay_total ps]).
 
 (** reduce_lock_period_common: returns the state after the energy update, the unlocked amount
     (payment - penalty) and the new lock epochs *)
